@@ -32,6 +32,26 @@ def handle : List String → Option String
       let n ← P.nat; let h ← P.rat; let w ← P.list P.rat; let p ← P.list P.rat; let u ← P.list P.rat
       pure (n, h, w, p, u)).run rest
     pure (showRat (cost (normAxis 0) [n] [h0] wq.length (fn wq) (fun q => [pq.getD q 0]) (fun _ _ => 1) (fn u)))
+  | "thin" :: rest => do
+    -- thin grid: shape, voxel sizes, axis a, quadrature weights, nodes (nq·dim numbers, node-major), mass difference f.
+    -- response: thinB, feasibility of the prefix-sum flux, its flat values, its exact cost (|component a| = Euclidean norm)
+    let ((shape, h, a, wq, pq, f), _) ← (do
+      let s ← P.list P.nat; let h ← P.list P.rat; let a ← P.nat; let w ← P.list P.rat; let p ← P.list P.rat
+      let f ← P.list P.rat; pure (s, h, a, w, p, f)).run rest
+    let dim := shape.length
+    let U := uniqueFluxThin shape h a (fn f)
+    let ptq : Nat → List Rat := fun q => (List.range dim).map fun b => pq.getD (q * dim + b) 0
+    let c := cost (normAxis a) shape h wq.length (fn wq) ptq (fun _ _ => 1) U
+    pure (s!"{showBool (thinB shape a)} {showBool (feasibleB shape h (fn f) U)} | " ++
+      showRats ((List.range (numFaces shape)).map U) ++ " | " ++ showRat c)
+  | "cert" :: rest => do
+    -- dual certificate: shape, voxel sizes, mass difference f, potential p (per cell), g (cell-major, dim per cell)
+    let ((shape, h, f, p, g), _) ← (do
+      let s ← P.list P.nat; let h ← P.list P.rat; let f ← P.list P.rat; let p ← P.list P.rat; let g ← P.list P.rat
+      pure (s, h, f, p, g)).run rest
+    let dim := shape.length
+    let gf : Nat → Nat → Rat := fun c a => if a < dim then g.getD (c * dim + a) 0 else 0
+    pure (s!"{showBool (certOK shape h (fn p) gf)} {showRat (certValue shape h (fn f) (fn p))}")
   | "emd" :: rest => do
     let ((v, dy, dx, dr, dc), _) ← (do
       let v ← P.rat; let dy ← P.rat; let dx ← P.rat; let dr ← P.int; let dc ← P.int; pure (v, dy, dx, dr, dc)).run rest
